@@ -126,30 +126,35 @@ KINV = ("    invariant lhs_rows < usize::MAX, rhs_rows < usize::MAX, 1 <= lhs_ro
 KBEFORE = "proof { lemma_matches_of(lhs_row as int, rhs_rows as int); }"
 # invariants are attached by loop HEADER (after the rewrites), not by ordinal: an extra loop over `matched_rhs` in some arm gets the
 # invariant of such a loop (and has to do what such a loop does in a join); a loop with an unknown header is a lost anchor
-LOOP_SPECS = [
-    (r"for\s+lhs_row\s+in\s+1\.\.lhs_rows \+ 1",
-     "    invariant lhs_rows < usize::MAX, rhs_rows < usize::MAX, rhs_matched@.len() == rhs_rows,\n"
-     "      out_rows@ == left_part(mode, lhs_row - 1, rhs_rows as int),\n"
-     "      " + RIGHT % "any_match(lhs_row - 1, q + 1)" + ","),
-    (r"for\s+rhs_row\s+in\s+1\.\.rhs_rows \+ 1\s*\{\s*if\s+rows_match",
-     "    invariant rhs_rows < usize::MAX, matched_rhs@ == matches_of(lhs_row as int, rhs_row - 1),"),
-    (r"for\s+k_\s+in\s+0\.\.matched_rhs\.len\(\)", KINV),
-    (r"for\s+rhs_row\s+in\s+1\.\.rhs_rows \+ 1",
-     "    invariant rhs_rows < usize::MAX, rhs_matched@.len() == rhs_rows, keeps_unmatched_right(mode),\n"
-     "      forall|q: int| 0 <= q < rhs_rows ==> #[trigger] rhs_matched@[q] == any_match(lhs_rows as int, q + 1),\n"
-     "      out_rows@ == left_part(mode, lhs_rows as int, rhs_rows as int) + right_part(lhs_rows as int, rhs_row - 1),"),
-]
+LOOP_SPECS = {
+    "lhs": ("    invariant lhs_rows < usize::MAX, rhs_rows < usize::MAX, rhs_matched@.len() == rhs_rows,\n"
+            "      out_rows@ == left_part(mode, lhs_row - 1, rhs_rows as int),\n"
+            "      " + RIGHT % "any_match(lhs_row - 1, q + 1)" + ","),
+    "collect": "    invariant rhs_rows < usize::MAX, matched_rhs@ == matches_of(lhs_row as int, rhs_row - 1),",
+    "matched": KINV,
+    "unmatched": ("    invariant rhs_rows < usize::MAX, rhs_matched@.len() == rhs_rows, keeps_unmatched_right(mode),\n"
+                  "      forall|q: int| 0 <= q < rhs_rows ==> #[trigger] rhs_matched@[q] == any_match(lhs_rows as int, q + 1),\n"
+                  "      out_rows@ == left_part(mode, lhs_rows as int, rhs_rows as int) + right_part(lhs_rows as int, rhs_row - 1),"),
+}
 
 
 def loop_specs(b):
+    """which invariant a loop gets is decided by WHAT it ranges over (lhs rows / rhs rows inside the lhs loop = collecting the
+    matches / the collected matches / rhs rows after the lhs loop = the unmatched ones), not by its ordinal"""
     specs = []
+    ml = re.search(r"for\s+lhs_row\s+in\b", b)
+    lhs_span = (ml.start(), match_brace(b, b.index("{", ml.end()))) if ml else (0, 0)
     for m in vlib.find_all_code(b, r"\bfor\b"):
-        for pat, inv in LOOP_SPECS:
-            if re.match(pat, b[m.start():]):
-                specs.append((inv, ""))
-                break
+        head = b[m.start():b.index("{", m.start())]
+        mk = re.match(r"for\s+(\w+)\s+in\s+0\.\.matched_rhs\.len\(\)", head)
+        if re.match(r"for\s+lhs_row\s+in\b", head):
+            specs.append((LOOP_SPECS["lhs"], ""))
+        elif re.match(r"for\s+rhs_row\s+in\s+\d", head):
+            specs.append((LOOP_SPECS["collect" if lhs_span[0] < m.start() < lhs_span[1] else "unmatched"], ""))
+        elif mk:
+            specs.append((re.sub(r"\bk_\b", mk.group(1), LOOP_SPECS["matched"]), ""))
         else:
-            raise AnchorLost("build_joined_table: a loop the contract has no invariant for: `%s`" % b[m.start():m.start() + 60].split("\n")[0])
+            raise AnchorLost("build_joined_table: a loop the contract has no invariant for: `%s`" % head.strip()[:60])
     return specs
 
 
